@@ -50,11 +50,12 @@ theorem visibility_any_flags (fl : Nat) :
     functionVisible originLocal fl = true := by
   refine ⟨?_, ?_, ?_, ?_⟩
   · have h1 : functionVisible originCallOther fl = !(hasBit fl (nameStatic ||| namePrivate ||| nameProtected)) := by
-      simp [functionVisible, originCallOther, originLocal, originDriver, originCallOut]
+      simp [functionVisible, functionVisibleGen, originCallOther, hasBit, nameStatic, namePrivate, nameProtected, bne]
+      rw [Bool.eq_iff_iff]; simp
     rw [h1, hasBit_or, hasBit_or]
-  · simp [functionVisible, originDriver]
-  · simp [functionVisible, originCallOut, originLocal, originDriver]
-  · simp [functionVisible, originLocal]
+  · simp [functionVisible, functionVisibleGen, originDriver]
+  · simp [functionVisible, functionVisibleGen, originCallOut]
+  · simp [functionVisible, functionVisibleGen, originLocal]
 
 /-- **visibility_lifted** — lifted to the model's apply_low, for every world, every cache (hit and miss paths)
     and every call: if apply_low runs a function, the flags word it tested (the slot of the object's program the
